@@ -4,6 +4,7 @@ import c11lib as L
 NAME = "compass"
 MODULE = "cspuz.puzzle.compass"
 FUNC = "solve_compass"
+TIER1 = ("Compass", "solve_compass_model")
 
 
 def call(mod, pb):
@@ -50,6 +51,71 @@ def tier2(tier, rng):
     for (h, w, k) in [(1, 1, 1), (1, 2, 1), (1, 2, 2), (2, 2, 1), (2, 2, 2)]:
         for _ in range(6 if th else 2):
             yield _rand(rng, h, w, k)
+
+
+def _t1_rand(rng, h, w, k, dup=False):
+    """k compasses on random (distinct unless dup) cells; numbers absent (-1, sometimes another negative), 0, small,
+    at the number of cells and beyond it"""
+    allc = [(y, x) for y in range(h) for x in range(w)]
+    cells = [rng.choice(allc) for _ in range(k)] if dup else rng.sample(allc, k)
+    vals = [-1, -1, -1, -2, 0, 0, 1, 2, 3, max(h, w) - 1, h * w - 1, h * w, h * w + 1, 12]
+    return {"h": h, "w": w, "cps": [[y, x] + [rng.choice(vals) for _ in range(4)] for (y, x) in cells]}
+
+
+def tier1_problems(tier, rng):
+    """program-capture tie: every single-compass problem of the boards with <= 2 cells over the numbers -2 .. h*w+1,
+    every ordered placement of 1 .. h*w compasses on the boards with <= 4 cells and samples of the placements on the
+    5- and 6-cell boards (both orientations) with random numbers (absent, other negatives, 0, at and beyond the number
+    of cells), compasses in the corners / on the rim (empty slices), two compasses on one cell, random larger and
+    non-square boards up to 7x7 and 1xN / Nx1; problems without a compass and boards without cells (ValueError),
+    compasses outside the board (IndexError), a short last tuple (ValueError)"""
+    import itertools
+    th = tier == "thorough"
+    for (h, w) in [(1, 1), (1, 2), (2, 1)]:
+        for y in range(h):
+            for x in range(w):
+                for t in itertools.product(range(-2, h * w + 2), repeat=4):
+                    if h * w == 1 or th or rng.random() < 0.2:
+                        yield {"h": h, "w": w, "cps": [[y, x] + list(t)]}
+    for (h, w) in [(1, 1), (1, 2), (2, 1), (1, 3), (3, 1), (2, 2), (1, 4), (4, 1)]:
+        allc = [(y, x) for y in range(h) for x in range(w)]
+        for k in range(1, h * w + 1):
+            for cells in L.sample(rng, list(itertools.permutations(allc, k)), 24 if th else 6):
+                for _ in range(3 if th else 1):
+                    yield {"h": h, "w": w,
+                           "cps": [[y, x] + [rng.choice([-1, -1, 0, 1, 2, h * w, h * w + 1, -3]) for _ in range(4)]
+                                   for (y, x) in cells]}
+    for (h, w) in [(1, 5), (5, 1), (1, 6), (6, 1), (2, 3), (3, 2)]:
+        for k in range(1, h * w + 1):
+            for _ in range(6 if th else 2):
+                yield _t1_rand(rng, h, w, k)
+    for (h, w) in [(1, 2), (2, 2), (2, 3), (3, 3)]:
+        for k in (2, 3):
+            yield _t1_rand(rng, h, w, k, dup=True)
+        yield {"h": h, "w": w, "cps": [[0, 0, 0, 0, 1, 1], [0, 0, -1, -1, -1, -1]]}
+    for (h, w) in [(3, 3), (2, 5), (5, 2), (4, 4), (3, 6), (6, 5), (1, 7), (7, 1), (7, 7), (4, 7), (7, 3), (5, 5)]:
+        for k in [1, 2, 3, 5] * (3 if th else 1):
+            yield _t1_rand(rng, h, w, min(k, h * w))
+        # all four corners and a rim cell, every number given
+        corners = sorted(set([(0, 0), (0, w - 1), (h - 1, 0), (h - 1, w - 1), (h // 2, 0), (0, w // 2)]))
+        yield {"h": h, "w": w, "cps": [[y, x] + [rng.randint(0, h * w) for _ in range(4)] for (y, x) in corners]}
+        yield {"h": h, "w": w, "cps": [[h // 2, w // 2, 0, 0, 0, 0]]}
+    # error points
+    for (h, w) in [(1, 1), (2, 3), (0, 0), (0, 2), (2, 0)]:
+        yield {"h": h, "w": w, "cps": []}                                   # no compass: ValueError
+    for (h, w) in [(0, 0), (0, 2), (2, 0)]:
+        yield {"h": h, "w": w, "cps": [[0, 0, -1, -1, -1, -1]]}             # no cell: ValueError
+        yield {"h": h, "w": w, "cps": [[0, 0, 1, 0, 2, -1], [1, 1, -1, -1, -1, -1]]}
+    yield {"h": 2, "w": 2, "cps": [[0, 2, -1, -1, -1, -1]]}                 # x = w, y*w+x still a vertex: IndexError
+    yield {"h": 2, "w": 2, "cps": [[1, 2, -1, -1, -1, -1]]}                 # y*w+x no vertex: IndexError
+    yield {"h": 2, "w": 2, "cps": [[2, 0, 1, 1, 1, 1]]}
+    yield {"h": 3, "w": 2, "cps": [[0, 0, -1, 0, -1, 0], [1, 3, 0, -1, 0, -1]]}
+    yield {"h": 2, "w": 3, "cps": [[1, 1, -1, 0, -1, 0], [7, 9, 0, -1, 0, -1], [0, 0, 1, 1, 1, 1]]}
+    yield {"h": 1, "w": 4, "cps": [[0, 4, 0, 0, 0, 0]]}
+    yield {"h": 4, "w": 1, "cps": [[4, 0, 0, 0, 0, 0]]}
+    yield {"h": 2, "w": 2, "cps": [[0, 0, -1, -1, -1, -1], [0, 1, -1, -1]]}  # short last tuple: ValueError
+    yield {"h": 2, "w": 3, "cps": [[1, 2, 0, 1, 2, 0], [0, 1, 1, 0, 0]]}
+    yield {"h": 1, "w": 2, "cps": [[0, 1]]}
 
 
 def big(tier, rng):
